@@ -42,16 +42,22 @@ Proof. intros a k. split; [reflexivity|split; [reflexivity|discriminate]]. Qed.
 Theorem C17_error : forall a c e, deliver a c (KErr e) = Failed e.
 Proof. exact deliver_error. Qed.
 
-(* a response of another kind panics (the unwrap functions of crux_kv) - exactly then, and never yields a value *)
-Theorem C17_mismatch_panics : forall a c r,
-  response_kind r <> call_kind c <-> deliver a c (KOk r) = Panicked.
+(* a response of another kind is reported to the app as an error value naming what was expected
+   (since fix e5ed299; crux_kv used to panic here), and never yields a value *)
+Theorem C17_mismatch_is_an_error : forall a c r,
+  response_kind r <> call_kind c -> deliver a c (KOk r) = Failed (mismatch_error (call_kind c)).
 Proof. exact deliver_mismatch. Qed.
 
+(* crux_kv never panics, whatever the shell answers *)
+Theorem C17_total : forall a c r, deliver a c r <> Panicked.
+Proof. exact deliver_total. Qed.
+
+(* every outcome has exactly one origin *)
 Theorem C17_outcomes : forall a c r,
   match deliver a c r with
   | Delivered p => exists x, r = KOk x /\ response_kind x = call_kind c /\ p = payload_of_response x
-  | Failed e => r = KErr e
-  | Panicked => exists x, r = KOk x /\ response_kind x <> call_kind c
+  | Failed e => r = KErr e \/ (exists x, r = KOk x /\ response_kind x <> call_kind c /\ e = mismatch_error (call_kind c))
+  | Panicked => False
   end.
 Proof. exact outcome_trichotomy. Qed.
 
@@ -114,5 +120,7 @@ Example C17_nonvacuous :
   op_ok (OSet (Cases.bytes_of_hex "6bc3a9") (Cases.bytes_of_hex "00ff")) = true /\
   result_ok (KOk (RListKeys [Cases.bytes_of_hex "61"; []] 18446744073709551615)) = true /\
   op_ok (OGet (Cases.bytes_of_hex "ff")) = false /\
-  kv_effect_index Registry_kvapp = Some 1%N.
+  kv_effect_index Registry_kvapp = Some 1%N /\
+  deliver Command (CSet [] []) (KOk (RGet KNone)) =
+    Failed (EOther (Cases.bytes_of_hex "756e657870656374656420726573706f6e73653a20657870656374656420536574")).
 Proof. vm_compute. repeat split. Qed.
